@@ -46,6 +46,7 @@ def build(t, rots, leaf=None):
 def make_leaf(node, ori):
     k = node["kind"]
     kw = {"position": node["p"], "orientation": ori}
+    u = node.get("s", 1.0)          # absolute length scale of this tree
     if k == "leaf":
         return magpy.Sensor(**kw)
     if k == "sensor":
@@ -53,13 +54,13 @@ def make_leaf(node, ori):
     if k == "dipole":
         return magpy.misc.Dipole(moment=node["m"], **kw)
     if k == "cuboid":
-        return magpy.magnet.Cuboid(polarization=node["m"], dimension=(0.3, 0.2, 0.25), **kw)
+        return magpy.magnet.Cuboid(polarization=node["m"], dimension=(0.3 * u, 0.2 * u, 0.25 * u), **kw)
     if k == "sphere":
-        return magpy.magnet.Sphere(polarization=node["m"], diameter=0.3, **kw)
+        return magpy.magnet.Sphere(polarization=node["m"], diameter=0.3 * u, **kw)
     if k == "cylinder":
-        return magpy.magnet.Cylinder(polarization=node["m"], dimension=(0.3, 0.2), **kw)
+        return magpy.magnet.Cylinder(polarization=node["m"], dimension=(0.3 * u, 0.2 * u), **kw)
     if k == "circle":
-        return magpy.current.Circle(current=node["m"][0] * 100, diameter=0.4, **kw)
+        return magpy.current.Circle(current=node["m"][0] * 100, diameter=0.4 * u, **kw)
     raise ValueError(k)
 
 
@@ -67,14 +68,45 @@ def snap_all(objs):
     return [(o._position.copy(), o._orientation.as_quat().copy()) for _, o in objs]
 
 
-def apply_tree_op(objs, step, rots):
-    target = dict((tuple(p), o) for p, o in objs)[tuple(step["at"])]
-    op = step["op"]
-    form = op.get("form")
-    if op["op"] == "rotate" and form:
-        apply_rotate_from(target, op, form, rots)
+def resolve_step(objs, step):
+    """concrete operation for this moment of the history:
+    {"alias": path, "attr": "position"|"_position"} -> that node's OWN array (not a copy);
+    setori {"alias": path} -> that node's orientation path; "near": eps -> the target's current value changed by
+    a relative eps; "nd": True -> float64 ndarrays instead of lists"""
+    byp = dict((tuple(p), o) for p, o in objs)
+    target = byp[tuple(step["at"])]
+    op = dict(step["op"])
+    for k in ("d", "p", "anchor"):
+        v = op.get(k)
+        if isinstance(v, dict):
+            src = byp[tuple(v["alias"])]
+            op[k] = src._position if v.get("attr") == "_position" else src.position
+        elif op.get("nd") and isinstance(v, (list, tuple)):
+            op[k] = np.array(v, dtype=np.float64)
+    if op["op"] == "setori" and isinstance(op.get("r"), dict):
+        op["_R"] = byp[tuple(op["r"]["alias"])].orientation
+    if "near" in op:
+        e = op["near"]
+        if op["op"] == "setori":
+            op["_R"] = R.from_rotvec([e, -e, 0.5 * e]) * target._orientation
+        else:
+            m = float(np.abs(target._position).max()) or 1.0
+            op["p"] = target._position + e * m * np.array([1.0, -1.0, 0.5])
+    return target, op
+
+
+def apply_resolved(target, op, rots):
+    if op["op"] == "setori" and "_R" in op:
+        target.orientation = op["_R"]
+    elif op["op"] == "rotate" and op.get("form"):
+        apply_rotate_from(target, op, op["form"], rots)
     else:
         P9.apply_op(target, op, rots)
+
+
+def apply_tree_op(objs, step, rots):
+    target, op = resolve_step(objs, step)
+    apply_resolved(target, op, rots)
 
 
 def apply_rotate_from(obj, op, form, rots):
@@ -161,7 +193,9 @@ def structured_cases():
                 for k in (0, 1, 2, 4):
                     d = [1, -2, 3] if k == 0 else [[j + 1, j - 2, 3] for j in range(k)]
                     r = 5 if k == 0 else [(7 * j + 2) % 24 for j in range(k)]
-                    for op in ({"op": "move", "d": d, "start": st},
+                    extra = ({"op": "rotate", "r": None, "anchor": None, "start": st},
+                             {"op": "move", "d": [0, 0, 0], "start": st}) if k == 0 else ()
+                    for op in extra + ({"op": "move", "d": d, "start": st},
                                {"op": "rotate", "r": r, "anchor": None, "start": st},
                                {"op": "rotate", "r": r, "anchor": [1, 2, -1], "start": st},
                                {"op": "rotate", "r": r, "anchor": [[j, 1, -j] for j in range(3)], "start": st}):
@@ -231,7 +265,8 @@ def index_map(n, op, rots):
         sc = d.ndim == 1
         return P9.spec_indices(n, 1 if sc else len(d), sc, op["start"])[0]
     if k == "rotate":
-        rq = rots(op["r"]).as_quat()
+        rr = rots(op["r"])
+        rq = (R.identity() if rr is None else rr).as_quat()
         lr = 0 if rq.ndim == 1 else len(rq)
         a = op["anchor"]
         la = 0
@@ -244,7 +279,7 @@ def index_map(n, op, rots):
         if k == "setpos":
             m = len(np.reshape(np.array(op["p"], dtype=float), (-1, 3)))
         else:
-            r = rots(op["r"])
+            r = op["_R"] if "_R" in op else rots(op["r"])
             m = 1 if r is None else len(np.reshape(r.as_quat(), (-1, 4)))
         return [n - m + i for i in range(m)] if m <= n else [min(i, n - 1) for i in range(m)]
     if k == "reset":
@@ -293,8 +328,11 @@ def check_history(tree, hist, rots, with_field=False, stats=None):
     nodes = list(preorder(tree))
     paths = [p for p, _ in nodes]
     for si, step in enumerate(hist):
-        at, op = step["at"], step["op"]
+        at = step["at"]
+        target, op = resolve_step(objs, step)
         before = snap_all(objs)
+        unit = tree.get("s", 1.0)
+        phis = {}
         lens = [len(b[0]) for b in before]
         fields = {}
         cands = []      # collections c in the operated subtree whose members share its path length
@@ -305,11 +343,13 @@ def check_history(tree, hist, rots, with_field=False, stats=None):
             if any(lens[j] != lens[ci] for j in members):
                 continue
             cands.append((ci, members))
+            phis[ci] = index_map(lens[ci], op, rots)
             if with_field and own_field_ok(nodes, objs, cp) and \
-                    min_sensor_source_distance(nodes, objs, cp) > 0.5:
+                    min_sensor_source_distance(nodes, objs, cp) > 0.5 * unit:
                 fields[ci] = field_of(objs[ci][1])
+        inmag = P9.input_magnitude(op)
         try:
-            apply_tree_op(objs, step, rots)
+            apply_resolved(target, op, rots)
         except Exception as e:   # pylint: disable=broad-except
             return {"step": si, "clause": "raises", "what": f"valid operation raised {type(e).__name__}: {e}",
                     "c": at, "d": at}
@@ -324,8 +364,7 @@ def check_history(tree, hist, rots, with_field=False, stats=None):
                         "c": at, "d": p}
         # (2) relative poses inside every uniform collection of the operated subtree
         for ci, members in cands:
-            n = lens[ci]
-            phi = index_map(n, op, rots)
+            phi = phis[ci]
             cp0, cq0 = before[ci]
             cp1, cq1 = after[ci]
             if len(cp1) != len(cq1):
@@ -334,8 +373,9 @@ def check_history(tree, hist, rots, with_field=False, stats=None):
             if len(cp1) != len(phi):
                 return {"step": si, "clause": "lengths",
                         "what": f"collection path length {len(cp1)} instead of {len(phi)}", "c": paths[ci], "d": paths[ci]}
-            scale = 1.0 + max(np.abs(after[j][0]).max() for j in members) + \
-                max(np.abs(before[j][0]).max() for j in members)
+            # relative to the scale of these paths and of this input (works at 1e-6 as at 1e3)
+            scale = max(max(np.abs(after[j][0]).max() for j in members),
+                        max(np.abs(before[j][0]).max() for j in members), inmag) + 1e-300
             for j in members:
                 if j == ci:
                     continue
@@ -388,61 +428,74 @@ def signature(tree, hist, res):
         depth = len(res["d"]) - len(res["c"])
         rel += ":child" if depth == 1 else (":deep" if depth > 1 else "")
     form = (":from_" + op["form"]) if op.get("form") else ""
+    if op["op"] == "move" and isinstance(op.get("d"), dict) and res["clause"] in ("relpos", "field"):
+        # one defect, whatever the start / target: the displacement array is a member's own position array
+        return f"{res['clause']}/move:displacement-aliases-member-position"
     return f"{res['clause']}/{op_kind(op)}{form}:on-{target}{rel}"
 
 
 def op_kind(op):
     """kind of operation / input / anchor / start, never raw numbers"""
     k = op["op"]
+    if "near" in op:
+        return k + ":near-current-value"
     if k in ("move", "rotate"):
         if k == "move":
-            sc = np.ndim(op["d"]) == 1
+            sc = (not isinstance(op["d"], dict)) and np.ndim(op["d"]) == 1
+            inp = "alias" if isinstance(op["d"], dict) else ("scalar" if sc else "vector")
         else:
-            x = op["r"]       # int | [int...] (octahedral indices)  or  [f,f,f] | [[f,f,f]...] (rotvecs)
+            x = op["r"]       # None | int | [int...] (octahedral indices)  or  [f,f,f] | [[f,f,f]...] (rotvecs)
             sc = not isinstance(x, (list, tuple)) or isinstance(x[0], float)
+            inp = "unit" if x is None else ("scalar" if sc else "vector")
         st = op["start"]
-        out = f"{k}:{'scalar' if sc else 'vector'}:start-{'auto' if st == 'auto' else 'neg' if st < 0 else 'nonneg'}"
+        out = f"{k}:{inp}:start-{'auto' if st == 'auto' else 'neg' if st < 0 else 'nonneg'}"
         if k == "rotate":
             a = op["anchor"]
-            out += ":anchor-" + ("none" if a is None else "0" if isinstance(a, (int, float)) else
+            out += ":anchor-" + ("none" if a is None else "alias" if isinstance(a, dict) else
+                                 "0" if isinstance(a, (int, float)) else
                                  "path" if isinstance(a[0], (list, tuple)) else "single")
         return out
     if k == "setpos":
-        return "setpos:" + ("single" if np.ndim(op["p"]) == 1 else "path")
+        return "setpos:" + ("alias" if isinstance(op["p"], dict) else "single" if np.ndim(op["p"]) == 1 else "path")
     if k == "setori":
         r = op["r"]
-        return "setori:" + ("none" if r is None else "path" if (isinstance(r, (list, tuple)) and
-                            (isinstance(r[0], (list, tuple)) or isinstance(r[0], int))) else "single")
+        return "setori:" + ("none" if r is None else "alias" if isinstance(r, dict) else
+                            "path" if (isinstance(r, (list, tuple)) and
+                                       (isinstance(r[0], (list, tuple)) or isinstance(r[0], int))) else "single")
     return k
 
 
 # ------------------------------------------------------------------ float trees and histories
 SRC_KINDS = ["dipole", "cuboid", "sphere", "cylinder", "circle"]
+SCALES = [1.0, 1.0, 1.0, 1e-3, 1e-6, 1e3]
 
 
-def gen_float_tree(rng, n):
-    """sources near the origin of the root frame, sensors on a shell around them"""
+def gen_float_tree(rng, n, u=1.0):
+    """sources near the origin of the root frame, sensors on a shell around them; u = length scale"""
+    # closed forms without absolute thresholds at the non-unit scales (those are C12's subject)
+    kinds = SRC_KINDS if u == 1.0 else ["dipole", "sphere"]
+
     def rv():
         return [[round(rng.uniform(-2, 2), 3) for _ in range(3)] for _ in range(n)]
 
     def near():
-        return [[round(rng.uniform(-0.6, 0.6), 3) for _ in range(3)] for _ in range(n)]
+        return [[round(rng.uniform(-0.6, 0.6), 3) * u for _ in range(3)] for _ in range(n)]
 
     def shell():
         out = []
         for _ in range(n):
             v = np.array([rng.gauss(0, 1) for _ in range(3)])
-            out.append([round(float(x), 3) for x in v / np.linalg.norm(v) * rng.uniform(2.5, 4.0)])
+            out.append([round(float(x), 3) * u for x in v / np.linalg.norm(v) * rng.uniform(2.5, 4.0)])
         return out
 
     def src():
-        return {"kind": rng.choice(SRC_KINDS), "p": near(), "r": rv(), "ch": [],
+        return {"kind": rng.choice(kinds), "p": near(), "r": rv(), "ch": [], "s": u,
                 "m": [round(rng.uniform(-1, 1), 3) + 0.1 for _ in range(3)]}
 
-    pix = [0, 0, 0] if rng.random() < 0.5 else [[0.05, 0, 0], [0, -0.05, 0.02]]
+    pix = [0, 0, 0] if rng.random() < 0.5 else [[0.05 * u, 0, 0], [0, -0.05 * u, 0.02 * u]]
 
     def sens():
-        return {"kind": "sensor", "p": shell(), "r": rv(), "ch": [], "pixel": pix}
+        return {"kind": "sensor", "p": shell(), "r": rv(), "ch": [], "pixel": pix, "s": u}
 
     def col(depth):
         kids = []
@@ -458,27 +511,54 @@ def gen_float_tree(rng, n):
 
     t = col(rng.randint(0, 2))
     t["ch"] += [src(), sens()]
+    t["s"] = u
     return t
 
 
-def gen_float_op(rng):
+def gen_float_op(rng, u=1.0):
     def fvec(s=2.0):
-        return [round(rng.uniform(-s, s), 3) for _ in range(3)]
+        x = rng.random()
+        if x < 0.05:
+            return [0.0, 0.0, 0.0]
+        if x < 0.13:                    # exactly along an axis
+            v = [0.0, 0.0, 0.0]
+            v[rng.randrange(3)] = rng.choice([-1.0, 1.0]) * u
+            return v
+        return [round(rng.uniform(-s, s), 3) * u for _ in range(3)]
+
+    def rvec():
+        x = rng.random()
+        if x < 0.06:
+            return [0.0, 0.0, 0.0]
+        if x < 0.16:                    # quarter turns / flips, both senses
+            v = [0.0, 0.0, 0.0]
+            v[rng.randrange(3)] = rng.choice([-1.0, 1.0]) * rng.choice([np.pi / 2, np.pi])
+            return v
+        return [round(rng.uniform(-1.5, 1.5), 3) for _ in range(3)]
+
+    def klen(maxk):
+        return rng.randint(16, 20) if rng.random() < 0.03 else rng.randint(1, maxk)
 
     def finp(maxk=4, s=2.0):
-        return fvec(s) if rng.random() < 0.45 else [fvec(s) for _ in range(rng.randint(1, maxk))]
+        return fvec(s) if rng.random() < 0.45 else [fvec(s) for _ in range(klen(maxk))]
+
+    def frot(maxk=4):
+        return rvec() if rng.random() < 0.45 else [rvec() for _ in range(klen(maxk))]
 
     x = rng.random()
     if x < 0.25:
-        return {"op": "move", "d": finp(), "start": P9.gen_start(rng)}
-    if x < 0.75:
+        op = {"op": "move", "d": finp(), "start": P9.gen_start(rng)}
+    elif x < 0.75:
         a = rng.choice(["none", "none", "zero", "vec", "path"])
         anchor = None if a == "none" else 0 if a == "zero" else fvec() if a == "vec" else \
             [fvec() for _ in range(rng.randint(1, 4))]
-        op = {"op": "rotate", "r": finp(s=1.5), "anchor": anchor, "start": P9.gen_start(rng)}
+        op = {"op": "rotate", "r": None if rng.random() < 0.04 else frot(), "anchor": anchor,
+              "start": P9.gen_start(rng)}
         f = rng.choice([None, None, "quat", "matrix", "mrp", "rotvec", "rotvec-deg", "euler", "angax"])
+        if op["r"] is None:
+            f = None
         if f == "angax":
-            ax = rng.choice(["x", "y", "z", fvec()])
+            ax = rng.choice(["x", "y", "z", [round(rng.uniform(-2, 2), 3) for _ in range(3)]])
             axv = np.array({"x": [1, 0, 0], "y": [0, 1, 0], "z": [0, 0, 1]}.get(ax, ax) if isinstance(ax, str) else ax, dtype=float)
             axv = axv / np.linalg.norm(axv)
             deg = rng.random() < 0.5
@@ -489,22 +569,106 @@ def gen_float_op(rng):
             op["angax"] = [ang if deg else (np.array(ang) / 60.0).tolist(), ax, deg]
         if f:
             op["form"] = f
-        return op
-    if x < 0.85:
-        return {"op": "setpos", "p": finp()}
-    if x < 0.95:
-        return {"op": "setori", "r": None if rng.random() < 0.2 else finp(s=1.5)}
-    return {"op": "reset"}
+    elif x < 0.85:
+        op = {"op": "setpos", "p": finp()}
+    elif x < 0.95:
+        op = {"op": "setori", "r": None if rng.random() < 0.2 else frot()}
+    else:
+        op = {"op": "reset"}
+    if rng.random() < 0.3 and not op.get("form"):
+        op["nd"] = True
+    return op
+
+
+def special_step(rng, nodes, at):
+    """inputs taken from the tree itself (aliasing), identical and nearly identical assignments"""
+    other = rng.choice(nodes)[0]
+    x = rng.random()
+    if x < 0.15:
+        return {"op": "setpos", "p": {"alias": at, "attr": rng.choice(["position", "_position"])}}
+    if x < 0.3:
+        return {"op": "setori", "r": {"alias": at}}
+    if x < 0.42:
+        return {"op": "setpos", "near": rng.choice([1e-9, 1e-7, 1e-5])}
+    if x < 0.58:
+        return {"op": "setori", "near": rng.choice([1e-7, 1e-6, 1e-5])}
+    if x < 0.7:
+        return {"op": "setpos", "p": {"alias": other, "attr": "_position"}}
+    if x < 0.8:
+        return {"op": "setori", "r": {"alias": other}}
+    if x < 0.9:
+        return {"op": "move", "d": {"alias": other, "attr": rng.choice(["position", "_position"])},
+                "start": P9.gen_start(rng)}
+    return {"op": "rotate", "r": [round(rng.uniform(-1.5, 1.5), 3) for _ in range(3)],
+            "anchor": {"alias": other, "attr": "_position"}, "start": P9.gen_start(rng)}
 
 
 def gen_float_case(rng, nops):
-    tree = gen_float_tree(rng, rng.randint(1, 4))
-    return {"tree": tree, "hist": gen_hist(rng, tree, nops, gen_float_op, p_leaf=0.15)}
+    u = rng.choice(SCALES)
+    tree = gen_float_tree(rng, rng.randint(1, 4), u)
+    hist = gen_hist(rng, tree, nops, lambda r: gen_float_op(r, u), p_leaf=0.15)
+    nodes = list(preorder(tree))
+    for st in hist:
+        if rng.random() < 0.15:
+            st["op"] = special_step(rng, nodes, st["at"])
+    return {"tree": tree, "hist": hist}
+
+
+def battery_cases():
+    """fixed battery, run on every run: a 4-level tree (collections nested to depth 3) at two length scales;
+    every kind of operation incl. identical / nearly identical assignments, aliased inputs, unit rotations,
+    two resets in a row -- applied to the root, to a nested and to a doubly nested collection"""
+    out = []
+    for u in (1.0, 1e-6):
+        def leaf(kind, a, u=u):
+            far = kind == "sensor"
+            p = [[(3.0 if far else 0.3) * u * (1 + 0.1 * a), 0.2 * a * u, -0.1 * i * u] for i in range(2)]
+            d = {"kind": kind, "p": p, "r": [[0.1 * a, 0.2, 0.3 * i] for i in range(2)], "ch": [], "s": u}
+            if far:
+                d["pixel"] = [[0.05 * u, 0, 0], [0, -0.05 * u, 0.02 * u]]
+            else:
+                d["m"] = [0.3, -0.2, 1.0]
+            return d
+
+        def col(a, ch, u=u):
+            return {"kind": "col", "p": [[0.1 * a * u, -0.2 * u, 0.05 * i * u] for i in range(2)],
+                    "r": [[0.2, 0.1 * a, -0.3 * i] for i in range(2)], "ch": ch}
+        tree = col(1, [leaf("dipole", 1), col(2, [leaf("sensor", 2), col(3, [leaf("sphere", 3), leaf("sensor", 4)])]),
+                       leaf("sensor", 5)])
+        tree["s"] = u
+        deep = [1, 1, 0]
+        for at in ([], [1], [1, 1]):
+            steps = [
+                {"op": "setori", "near": 1e-6}, {"op": "setori", "near": 1e-8}, {"op": "setpos", "near": 1e-9},
+                {"op": "setori", "r": {"alias": at}}, {"op": "setpos", "p": {"alias": at, "attr": "_position"}},
+                {"op": "setpos", "p": {"alias": deep, "attr": "_position"}}, {"op": "setori", "r": {"alias": deep}},
+                {"op": "move", "d": {"alias": deep, "attr": "_position"}, "start": 0},
+                {"op": "move", "d": {"alias": at, "attr": "position"}, "start": "auto"},
+                {"op": "rotate", "r": [0.0, 0.0, np.pi / 2], "anchor": {"alias": deep, "attr": "_position"}, "start": -1},
+                {"op": "rotate", "r": None, "anchor": None, "start": 4},
+                {"op": "rotate", "r": [0.0, 0.0, 0.0], "anchor": [[u, 0.0, 0.0]], "start": -4},
+                {"op": "rotate", "r": [[np.pi, 0.0, 0.0], [0.0, -np.pi / 2, 0.0], [0.3, 0.2, 0.1]],
+                 "anchor": [[0.0, u, 0.0], [u, 0.0, 0.0]], "start": 1, "nd": True},
+                {"op": "move", "d": [0.0, 0.0, 0.0], "start": 5}, {"op": "reset"}, {"op": "reset"},
+                {"op": "setpos", "p": [[u, 0.0, 0.0], [0.0, u, 0.0], [0.0, 0.0, u]], "nd": True},
+                {"op": "setori", "r": [[0.0, 0.0, 1e-7], [0.0, 0.0, 2e-7], [0.0, 0.0, 3e-7]]},
+                {"op": "setori", "r": [[0.0, 0.0, 1.1e-7], [0.0, 0.0, 2e-7], [0.0, 0.0, 3e-7]]},
+                {"op": "setpos", "near": 1e-7},
+            ]
+            # each special step once on a fresh tree, and all of them as one history
+            for st in steps:
+                out.append({"tree": tree, "hist": [{"at": at, "op": st}]})
+            out.append({"tree": tree, "hist": [{"at": at, "op": st} for st in steps]})
+    return out
 
 
 def simpler_ops(op):
     """candidate simplifications of one operation (used to canonicalise a counterexample)"""
     out = []
+    if "near" in op or any(isinstance(op.get(k), dict) for k in ("d", "p", "anchor", "r")):
+        return out          # aliased / near-current inputs are kept as they are
+    if op.get("nd"):
+        out.append({k: v for k, v in op.items() if k != "nd"})
     if op.get("form"):
         out.append({k: v for k, v in op.items() if k not in ("form", "angax")})
     if op["op"] in ("move", "rotate"):
@@ -516,6 +680,8 @@ def simpler_ops(op):
         x = op[key]
         if isinstance(x, (list, tuple)) and isinstance(x[0], (list, tuple)) and not op.get("form"):
             out.append(dict(op, **{key: x[0]}))
+        elif x is None:
+            pass
         elif isinstance(x, (list, tuple)) and isinstance(x[0], int) and op["op"] == "rotate":
             out.append(dict(op, r=x[0]))
         a = op.get("anchor")
@@ -560,11 +726,15 @@ def report(ctx, case, res, rots, kind, with_field):
 
 def float_sweep(ctx, n_hist, nops):
     stats = {}
-    for _ in range(n_hist):
-        case = gen_float_case(ctx.rng, nops)
+    fixed = battery_cases()
+    for t in range(len(fixed) + n_hist):
+        case = fixed[t] if t < len(fixed) else gen_float_case(ctx.rng, nops)
         ctx.case(("float", json.dumps(case, sort_keys=True)), True)
+        ctx.bump("float-battery" if t < len(fixed) else "float-random")
+        ctx.bump("float-scale:%g" % case["tree"].get("s", 1.0))
         for s in case["hist"]:
-            ctx.bump("float-op:" + s["op"]["op"] + (":from_" + s["op"]["form"] if s["op"].get("form") else ""))
+            ctx.bump("float-op:" + op_kind(s["op"]).split(":start")[0] +
+                     (":from_" + s["op"]["form"] if s["op"].get("form") else ""))
             ctx.bump("float-target:" + ("root" if not s["at"] else "depth%d" % len(s["at"])))
         res = check_history(case["tree"], case["hist"], P9.rotvec_rot, True, stats)
         if res is not None:
